@@ -106,6 +106,11 @@ impl Prop for C02 {
                 obs.tag_if(!expected.is_ascii(), "string/multi-byte");
                 obs.tag_if(cfg.tokens.iter().any(|t| s.contains(t.as_str())), "string/contains-special-spelling");
                 obs.tag_if(r.toks.iter().any(|t| t.len() > 1 && std::str::from_utf8(t).is_err()), "token/splits-a-utf8-char");
+                // history on the same tokenizer object: the other flag value first (result ignored)
+                if hash64(s) % 3 == 0 {
+                    let _ = catch(|| tok.tokenize(s, false));
+                    obs.tag("history/same-text-other-flag-first");
+                }
                 let ids = match guarded(obs, "tokenize", || tok.tokenize(s, true)) {
                     Some(Ok(t)) => t.token_ids,
                     Some(Err(e)) => {
